@@ -111,17 +111,23 @@ def run(ctx):
         # exhaustive interleavings (query, set, query) over a small complex family
         small = [s for s in structs if len(s) <= 5 and "+" in s][:40]
         # complexes with unpaired positions inside a closed hairpin (non-empty enclosed_domains) on a strand that moves
-        small += ["(.)+.", ".+(.)", "(.)+(.)", "(.).+.", "((.))+.", ".+(.)+."]
+        small += ["(.(+)).", "((.)+)", "(+(.))", "(.(+).)", "((.)(+))", "(+)(.)", "(.)(+)", "(.(+)+).", "(+(.)+)", "(.)+.", ".+(.)"]
         for s in small:
             sq = gs.seq_for(rng, s, names=("a", "b"))
             n = s.count("+") + 1
-            for q1 in Q0 + [None]:
-                for v in range(-n, 2 * n + 1, max(1, n)):
+            for q1 in ["pair_table", "strand_table", "exterior_domains", "enclosed_domains", "rotate_pt", "is_connected", None]:
+                for v in (-1, 1, n + 1):
                     for q2 in ["pair_table", "strand_table", "exterior_domains", "enclosed_domains", "sequence",
                                "kernel_string", "rotate_pt", "rotate", "is_connected"]:
                         ops = ([[q1]] if q1 else []) + [["set_turns", v], [q2], ["get_loop_index", [0, 0]], ["get_paired_loc", [0, 0]]]
                         reqs.append(("c03_history", [sq, list(s), ops]))
         diffs += correspond(ctx, "view-histories", reqs)
+        # the direct statement on the implementation: every view equals that of a fresh complex at the same rotation
+        probe = reqs[-6000:] if len(reqs) > 6000 else reqs
+        for rq, r in zip(probe, run_impl([("c03_fresh_compare", q[1]) for q in probe])):
+            if isinstance(r, Err) or r:
+                found.append({"key": {"seq": rq[1][0], "struct": "".join(rq[1][1]), "ops": rq[1][2]}, "input": rq[1],
+                              "what": str(r), "snippet": f"# harness op c03_fresh_compare {rq[1]!r} (harness/impl/views.py)"})
         impl = run_impl(reqs[:3000])
         for rq, r in zip(reqs[:3000], impl):
             if isinstance(r, Err):
